@@ -16,7 +16,7 @@ def outcome_of(r):
 
 
 def describe(f):
-    return "%s: `%s` with time_limit=%s ns gap=%s (raw %s, returned %s)" % (f.get("kind"), f.get("input", "")[:200], f.get("time_limit_ns"), f.get("gap"), f.get("raw"), f.get("returned"))
+    return "%s: `%s` through %s with time_limit=%s ns gap=%s (raw %s, returned %s)" % (f.get("kind"), f.get("input", "")[:200], f.get("entry"), f.get("time_limit_ns"), f.get("gap"), f.get("raw"), f.get("returned"))
 
 
 def run(ctx):
@@ -42,7 +42,7 @@ def run(ctx):
     for (i, k), r in sorted(results.items()):
         m = models[i]
         st = r.get("status")
-        base = {"input": m["text"], "time_limit_ns": r.get("time_limit_ns"), "gap": r.get("gap"), "raw": r.get("raw"), "returned": r.get("label") or r.get("kind") or st}
+        base = {"input": m["text"], "time_limit_ns": r.get("time_limit_ns"), "gap": r.get("gap"), "raw": r.get("raw"), "returned": r.get("label") or r.get("kind") or st, "entry": r.get("entry")}
         if st in ("timeout", "abort", "panic"):
             fails.append(dict(base, kind="call-did-not-return-" + st, **{"class": "unclassified"}))
             continue
